@@ -1599,13 +1599,16 @@ func EncodeTLVT(w net.Conn, typ byte, v encoding.BinaryMarshaler, t time.Duratio
 
 // EncodeTLV encodes v to a binary format and writes the record-length-value record to w.
 func EncodeTLV(w io.Writer, typ byte, v encoding.BinaryMarshaler) error {
+	// Marshal before anything is written: a value that cannot be encoded must
+	// not leave a lone type byte on the wire and desynchronise the stream.
+	buf, err := v.MarshalBinary()
+	if err != nil {
+		return err
+	}
 	if err := WriteType(w, typ); err != nil {
 		return err
 	}
-	if err := EncodeLV(w, v); err != nil {
-		return err
-	}
-	return nil
+	return WriteLV(w, buf)
 }
 
 // EncodeLV encodes v to a binary format and writes the length-value record to w.
